@@ -39,15 +39,21 @@ pub enum Place {
     EndFlush,
     /// the slice begins exactly where the leading guard page ends (catches under-runs)
     StartFlush,
+    /// the slice ends one alignment unit before the trailing guard page, so that it STARTS at the least aligned
+    /// address the element type permits (8 mod 16 for Complex<f64>, 4 mod 8 for Complex<f32>): heap buffers and the
+    /// two flush placements are always 16-byte aligned, which hides aligned SIMD loads/stores on caller memory
+    MinAligned,
 }
 impl Place {
     pub fn name(self) -> &'static str {
         match self {
             Place::EndFlush => "end",
             Place::StartFlush => "start",
+            Place::MinAligned => "minaligned",
         }
     }
     pub const BOTH: [Place; 2] = [Place::EndFlush, Place::StartFlush];
+    pub const ALL: [Place; 3] = [Place::EndFlush, Place::StartFlush, Place::MinAligned];
 }
 
 impl Arena {
@@ -73,12 +79,14 @@ impl Arena {
     #[allow(clippy::mut_from_ref)]
     pub fn slice<T: Copy>(&self, len: usize, place: Place) -> &mut [T] {
         let bytes = len * std::mem::size_of::<T>();
-        assert!(bytes <= self.usable_len, "arena too small: {} > {}", bytes, self.usable_len);
+        let al = std::mem::align_of::<T>();
+        assert!(bytes + al <= self.usable_len, "arena too small: {} > {}", bytes + al, self.usable_len);
         assert!(PAGE % std::mem::align_of::<T>() == 0 && std::mem::size_of::<T>() % std::mem::align_of::<T>() == 0);
         unsafe {
             let p = match place {
                 Place::EndFlush => self.usable.add(self.usable_len - bytes),
                 Place::StartFlush => self.usable,
+                Place::MinAligned => self.usable.add(self.usable_len - bytes - al),
             };
             std::slice::from_raw_parts_mut(p as *mut T, len)
         }
@@ -96,6 +104,10 @@ impl Arena {
                     (self.usable.add(off), self.usable_len - off)
                 }
                 Place::StartFlush => (self.usable, (bytes + PAGE - 1) / PAGE * PAGE),
+                Place::MinAligned => {
+                    let off = (self.usable_len - bytes - std::mem::align_of::<T>()) / PAGE * PAGE;
+                    (self.usable.add(off), self.usable_len - off)
+                }
             };
             if mprotect(start, span, if ro { PROT_READ } else { PROT_READ | PROT_WRITE }) != 0 {
                 panic!("mprotect failed");
@@ -148,10 +160,12 @@ impl DualArena {
     }
     fn offset<T>(&self, len: usize, place: Place) -> usize {
         let bytes = len * std::mem::size_of::<T>();
-        assert!(bytes <= self.usable_len, "dual arena too small: {} > {}", bytes, self.usable_len);
+        let al = std::mem::align_of::<T>();
+        assert!(bytes + al <= self.usable_len, "dual arena too small: {} > {}", bytes + al, self.usable_len);
         match place {
             Place::EndFlush => self.usable_len - bytes,
             Place::StartFlush => 0,
+            Place::MinAligned => self.usable_len - bytes - al,
         }
     }
     /// the read-only view (what the transform receives)
